@@ -143,7 +143,11 @@ def run(ctx):
     # ---- 1. model checking -------------------------------------------------------------------
     ctx.tlc_must_pass("conc", "MC_SFI", "MC_SFI_2.cfg", timeout=600, tag="mc-inbound-2")
     ctx.tlc_must_pass("conc", "MC_SFS", "MC_SFS_2.cfg", timeout=600, tag="mc-subgraph-2")
-    if not quick:
+    if quick:
+        # three requests: all invariants exhaustively, liveness only in the thorough tier
+        ctx.tlc_must_pass("conc", "MC_SFI", "MC_SFI_3s.cfg", timeout=900, tag="mc-inbound-3-safety")
+        ctx.tlc_must_pass("conc", "MC_SFS", "MC_SFS_3s.cfg", timeout=900, tag="mc-subgraph-3-safety")
+    else:
         ctx.tlc_must_pass("conc", "MC_SFI", "MC_SFI_3.cfg", timeout=1800, tag="mc-inbound-3")
         ctx.tlc_must_pass("conc", "MC_SFS", "MC_SFS_3.cfg", timeout=1800, tag="mc-subgraph-3")
     # the pinned (pre-fix) protocol must be *rejected* by the model: guards against a vacuous spec
